@@ -55,6 +55,9 @@ def units(tier):
             for q in (0, 2):
                 us.append({"kind": "PointerAux", "members": [m], "offset": off, "auxpos": q})
             us.append({"kind": "PointerRoot", "members": [m], "offset": off})
+    for x in BIT_COMBS:
+        for k in range(0, 8):
+            us.append({"kind": "InBitwise", "comb": x, "head": k, "members": []})
     for a, b in itertools.product([n for n in names if n != "Error"], repeat=2):
         for pf in (None, 0, 1, "m1", "expr"):
             us.append({"kind": "Union", "members": [a, b], "parsefrom": pf})
@@ -318,6 +321,54 @@ def check_build(unit, mnames, comb, mds, value, pos):
     return []
 
 
+# inside Bitwise over an unsized subcon the stream wrapper cannot seek backwards (documented), so only alternatives that fail on
+# their FIRST read (which consumes nothing) are in the contract there: integers of several widths, no Const/Peek/multi-field elements
+BIT_COMBS = ["GreedyRange3", "GreedyRange5", "GreedyRange7", "Optional3", "Optional9", "Select11_3", "Select16_9_2", "OptionalThenGreedy", "GreedyThenOptional"]
+
+
+def bit_comb(name):
+    import construct as C
+    B = C.BitsInteger
+    return {
+        "GreedyRange3": lambda: C.GreedyRange(B(3)), "GreedyRange5": lambda: C.GreedyRange(B(5)), "GreedyRange7": lambda: C.GreedyRange(B(7, signed=True)),
+        "Optional3": lambda: C.Optional(B(3)), "Optional9": lambda: C.Optional(B(9)),
+        "Select11_3": lambda: C.Select(B(11), B(3)), "Select16_9_2": lambda: C.Select(B(16), B(9), B(2)),
+        "OptionalThenGreedy": lambda: C.Sequence(C.Optional(B(7)), C.GreedyRange(B(2))),
+        "GreedyThenOptional": lambda: C.Sequence(C.GreedyRange(B(5)), C.Optional(B(2)), C.Optional(B(1))),
+    }[name]()
+
+
+def check_in_bitwise(unit, data):
+    """definition of Bitwise: the inner construct sees the bits of the data, one per byte. The same inner construct is run on
+    the expanded bit string over a plain stream (where rewinding is trivially exact) and inside Bitwise over the packed bytes
+    (streaming wrapper): value and what is left for the following members must agree"""
+    import construct as C
+    k = unit["head"]
+    name = unit["comb"]
+    inner = lambda: C.Struct("h" / C.BitsInteger(k) if k else "h" / C.Computed(0), "x" / bit_comb(name), "rest" / C.GreedyBytes)
+    tsig = "InBitwise(%s)" % name
+    case = {"unit": unit, "members": [], "data": data, "start": 0, "op": "parse"}
+    bits = bytes((byte >> (7 - i)) & 1 for byte in data for i in range(8))
+    def run(d, x):
+        try:
+            with watchdog(3):
+                return ("ok", T.norm(d.parse(x)))
+        except Hang:
+            return ("hang",)
+        except C.ConstructError as e:
+            return ("fail", type(e).__name__)
+        except Exception as e:
+            return ("foreign", type(e).__name__)
+    want = run(inner(), bits)
+    got = run(C.Bitwise(inner()), data)
+    if want[0] in ("hang", "foreign"):
+        return "skip", []
+    if got != want:
+        return "bad", [{"sig": "C09/in-bitwise-differs/%s" % tsig, "case": case,
+                        "detail": "after a %d-bit field, %s followed by GreedyBytes on %s: inside Bitwise %r, on the expanded bits %r" % (k, name, data.hex(), got, want)}]
+    return ("ok" if want[0] == "ok" else "fail"), []
+
+
 HOST = bytes([0x10, 0x11, 0x12, 0x13])
 
 
@@ -447,6 +498,15 @@ def run_unit(unit, tier):
         datas = sigma(L)
     if kind in ("PointerAux", "PointerRoot"):
         return run_pointer_stream(unit, tier, r, datas)
+    if kind == "InBitwise":
+        for data in sigma(min(L, 3)) + [b"\xa5\x5a\xc3\x3c", b"\xff\xff\xff\xff", b"\x55" * 5]:
+            r.states += 1
+            oc, vs = check_in_bitwise(unit, data)
+            r.case(nontrivial=oc == "ok", outcome=oc, transitions=2, validated=1)
+            for v in vs:
+                r.violation(v["sig"], v["case"], v["detail"])
+        r.sample({"combinator": "InBitwise", "inner": unit["comb"], "head_bits": unit["head"]}, cap=2)
+        return r
     for mnames in combos:
         comb, mds = mk_comb(unit, mnames)
         starts = STARTS
@@ -484,6 +544,8 @@ def run_unit(unit, tier):
 
 def replay(case):
     unit = case["unit"]
+    if unit["kind"] == "InBitwise":
+        return check_in_bitwise(unit, case["data"])[1]
     comb, mds = mk_comb(unit, case["members"])
     if unit["kind"] in ("PointerAux", "PointerRoot"):
         return check_pointer_stream(unit, case["members"], comb, mds, case["data"], case["start"], case["op"], eval(case["value"]))[1]
